@@ -555,7 +555,7 @@ def good_value(p, idx, alt=0):
         return ["str", "s%d%s" % (idx, "x" * alt)]
     if b == "enum":
         return ["int", [5, 6, 0][(idx + alt) % 3]]
-    if b == "cls":
+    if b in ("cls", "clsptr"):
         return ["cls", p.cls, 20 + idx + alt]
     raise AssertionError(p.kind)
 
@@ -566,7 +566,7 @@ def bad_value(p):
         return ["int", 5]
     if b == "bool":
         return ["int", 1]
-    if b == "cls":
+    if b in ("cls", "clsptr"):
         return ["int", 5]
     if b in pygen.FLOATLIKE:
         return ["str", "x"]
@@ -584,7 +584,7 @@ def py_accepts(p, v):
         return t == "bool"
     if b in ("cstr", "string"):
         return t == "str"
-    if b == "cls":
+    if b in ("cls", "clsptr"):
         return t == "cls" and v[1] == p.cls
     return False
 
@@ -641,7 +641,9 @@ def expectation(f, S, flag):
         if p.visible:
             v = raw(S[vi]) if vi in S else p.default
             toks.append(pygen.trace_value(p.kind, v))
-            if p.intent == "inout":
+            if p.kind == "clsptr":
+                rets.append({"o": p.cls})       # the same Python object comes back
+            elif p.intent == "inout":
                 rets.append(enc_expected(pygen.out_value(p, idx, raw(S[vi]))))
             vi += 1
         else:
@@ -835,6 +837,15 @@ def check_library(ctx, drv, lib, thorough, r, dis_gen, dis_call, extra_calls=())
                 if S is not None:
                     E = f
                     break
+            if E is not None and any(p.kind == "clsptr" for p in E.params):
+                # a non-const class pointer: whatever goes wrong here is one finding (the raw C++ pointer is
+                # handed to Py_BuildValue("O"); the symptom - crash, garbage object - depends on heap contents)
+                trace, value = expectation(E, S, c["flag"])
+                if not (res["r"] == "ok" and res["trace"] == trace and same_value(res["value"], value)):
+                    ctx.fail("shadow-inout-raw-pointer:" + E.decl(lib.language),
+                             "%s: library must see %s and Python %s; got %s" % (sig, trace, json.dumps(value), json.dumps(res)[:300]),
+                             replay)
+                continue
             if res["r"] == "crash":
                 ctx.fail("crash:%s:%s" % (lib.name, sig), "interpreter crashed (rc=%s) in %s" % (res.get("rc"), sig), replay)
                 continue
